@@ -291,6 +291,22 @@ def run(props, tier, seed):
                         # creation metadata (the tddafile path recorded on load) is not part of the constraint set
                         f1, f2 = t1.split('"fields"')[1], t2.split('"fields"')[1]
                         b.check('C09.round-trip-identical-text', f1 == f2, w, '%r vs %r' % (f1[-120:], f2[-120:]))
+        # a field that has no constraints at all (recorded finding: written as {}, dropped on load)
+        w = {'api': 'field without constraints: DatasetConstraints([FieldConstraints("e", []), FieldConstraints("a", [TypeConstraint("int")])])'}
+        b.case(('api', 'empty-field'))
+        dc = DatasetConstraints([FieldConstraints('e', []), FieldConstraints('a', [TypeConstraint('int')])])
+        with quiet():
+            ok, t1 = b.guarded('C09.to_json.noraise', lambda: dc.to_json(), w)
+        if ok:
+            d2 = DatasetConstraints()
+            with quiet():
+                ok, _ = b.guarded('C09.load-dict.noraise', lambda: d2.initialize_from_dict(json.loads(t1)), w)
+            if ok:
+                with quiet():
+                    ok, t2 = b.guarded('C09.to_json.noraise', lambda: d2.to_json(), w)
+                if ok:
+                    b.check('C09.round-trip-identical-text', t1.split('"fields"')[1] == t2.split('"fields"')[1], w,
+                            'written %r, after loading %r' % (json.loads(t1)['fields'], json.loads(t2)['fields']))
     finally:
         shutil.rmtree(tmpdir, ignore_errors=True)
     return b
